@@ -19,7 +19,7 @@ CASE = ['capitalize', 'casefold', 'lower', 'upper', 'swapcase', 'title']
 
 
 def bounds(tier):
-    return {'len': 4 if tier == 'quick' else 5, 'ws_len': 4 if tier == 'quick' else 5, 'pat_len': 2}
+    return {'len': 4 if tier == 'quick' else 5, 'ws_len': 3 if tier == 'quick' else 4, 'pat_len': 2}
 
 
 def strings(alpha, lo, hi):
@@ -54,7 +54,7 @@ def tasks(tier, seed):
         if len(t) >= b['len'] - 1:
             out.append({'fam': 'main', 'text': t})
     out.append({'fam': 'main_short'})
-    W = [' ', '\n', '\t', 'a']
+    W = [' ', '\n', '\t', 'a', '\x85']
     for f in W:
         for g in W:
             out.append({'fam': 'ws', 'prefix': f + g})
@@ -386,12 +386,12 @@ def run_task(task, acc):
         for t in strings(['a', 'b', '-'], 0, b['len'] - 2):
             run_text(t, list(probes_main(t, b)), acc)
     elif fam == 'ws':
-        W = [' ', '\n', '\t', 'a']
+        W = [' ', '\n', '\t', 'a', '\x85']
         for rest in strings(W, 0, b['ws_len'] - 2):
             t = task['prefix'] + rest
             run_text(t, list(probes_ws(t)), acc)
     else:
-        for t in strings([' ', '\n', '\t', 'a'], 0, 1):
+        for t in strings([' ', '\n', '\t', 'a', '\x85'], 0, 1):
             run_text(t, list(probes_ws(t)), acc)
 
 
